@@ -118,7 +118,20 @@ func main() {
 			if !changed {
 				continue
 			}
-			astutil.AddImport(p.Fset, f, rtPath)
+			// the redirected sync import is named "sync"; the runtime needs its own
+			// import only where a generated call refers to it
+			usesRT := false
+			ast.Inspect(f, func(n ast.Node) bool {
+				if sel, ok := n.(*ast.SelectorExpr); ok {
+					if id, ok := sel.X.(*ast.Ident); ok && id.Name == "zzverifrt" {
+						usesRT = true
+					}
+				}
+				return !usesRT
+			})
+			if usesRT {
+				astutil.AddImport(p.Fset, f, rtPath)
+			}
 			for _, path := range []string{"golang.org/x/exp/maps", "maps"} {
 				if !astutil.UsesImport(f, path) {
 					astutil.DeleteImport(p.Fset, f, path)
